@@ -30,8 +30,8 @@ def points():
 
 def execute(chunk):
     import sys
-    if "/repo" not in sys.path:
-        sys.path.insert(0, "/repo")
+    if __import__("harness").REPO not in sys.path:
+        sys.path.insert(0, __import__("harness").REPO)
     from asyncfix import FMsg
     from asyncfix.errors import FIXError
     from asyncfix.protocol.order_single import FIXNewOrderSingle
